@@ -1,10 +1,13 @@
 """C16 -- Commits are durable: the pointer never outruns the data it references.
 
-Proof      : coq/Props/C16.v over coq/Model/Durable.v (file system with a volatile and a durable tree
-             over inodes; power loss is a RELATION: any schedule of background persistence events
-             interleaved with the calls; the publish discipline as an executable checker; the
-             library's publish_meta / publish_data / commit programs).
-Tie        : the OS-call trace.  Every scenario is run on the real library under
+Proof      : coq/Props/C16.v (C16_durable_prefix, C16_acked_durable, C16_each_publish,
+             C16_publish_data_same, C16_disciplined_safe) over coq/Model/Durable.v: file system with a
+             volatile and a durable tree over inodes; power loss is a RELATION (any schedule of
+             background persistence events interleaved with the calls); the publish discipline as an
+             executable checker; the library's publish_meta / publish_data / commit / rollback programs.
+Tie        : translator/gen_durable.py regenerates the two publish call sequences (write_file,
+             DataFileWriter.open+close) from the source into Gen/GenDurable.v and pins the order of the
+             commit's steps; and the OS-call trace:  Every scenario is run on the real library under
              harness/lib/ostrace.py (in-process interception; strace -f on a subprocess), the raw
              trace is projected on the model's alphabet and
                trace        canonical observed trace == Durable.trace_of(ops), ops rebuilt from the
@@ -36,7 +39,6 @@ import time
 from typing import Any, Dict, List, Optional, Tuple
 
 from harness.lib import coqbuild, ostrace, powerloss, c16_driver
-from harness.lib.coqio import C
 
 LEVEL = "proof"
 THEOREMS = ["C16_durable_prefix", "C16_acked_durable", "C16_each_publish", "C16_publish_data_same", "C16_disciplined_safe"]
@@ -44,15 +46,17 @@ REQ = ["DS.Model.Durable"]
 PRE = "Open Scope N_scope.\n"
 
 MANIFEST_ENTRY = {
-    "level_text": "C16 theorems proved in Coq over a power-loss file-system model in which any subset of unsynced "
-                  "contents / directory entries may reach the disk (relational power loss, every prefix, every schedule); "
-                  "the model's call sequences are tied to the code by equality with the observed OS-call traces "
-                  "(in-process interception and strace) and the observed traces themselves are checked against the "
-                  "proved publish discipline; an independent power-loss evaluator + reader replays every prefix of "
-                  "every observed trace",
+    "level_text": "C16_durable_prefix / C16_acked_durable / C16_each_publish / C16_disciplined_safe proved in Coq (unbounded "
+                  "histories of commits and rolled-back transactions, every prefix of the OS-call trace, every schedule of "
+                  "background persistence = every subset of unsynced contents / directory entries reaching the disk), over "
+                  "publish call sequences regenerated from write_file / DataFileWriter on every run; the model's traces are "
+                  "tied to the code by equality with the observed OS-call traces (in-process interception and strace), the "
+                  "observed traces themselves are checked against the proved publish discipline, and an independent "
+                  "power-loss evaluator + reader replays every prefix of every observed trace",
     "level_note": "trusted: Coq kernel; the POSIX-strict power-loss model (fsync = barrier for one inode, directory fsync = "
-                  "barrier for that directory's entries); the tracers and the canonicaliser; directory creation "
-                  "(makedirs) and the table root's own entry are outside the property",
+                  "barrier for that directory's entries); translator/gen_durable.py; the tracers and the canonicaliser; "
+                  "directory creation (makedirs), the table root's own entry and a swallowed OSError from a directory "
+                  "fsync are outside the theorems (the last is reported as an informational fault variant)",
     "technique": "Coq invariant proof over a relational crash model + OS-trace correspondence + prefix power-loss oracle",
     "design_ref": "DESIGN.md section 5 C16",
 }
@@ -72,7 +76,7 @@ BASE_SCENARIOS: List[List[Any]] = [
 
 # ------------------------------------------------------------------------------------------ running
 def run_inproc(root: str, steps: List[Any], mutation: Optional[str] = None) -> Tuple[List[Dict[str, Any]], List[Dict[str, Any]]]:
-    tmode = mutation if mutation and mutation.startswith("drop_") else None
+    tmode = mutation if mutation and (mutation.startswith("drop_") or mutation == "dir_fsync_eio") else None
     with ostrace.InProcessTracer(root, mutate=tmode) as t:
         results = c16_driver.run_steps(root, steps, t.mark, mutation if not tmode else None)
     return t.events, results
@@ -512,6 +516,7 @@ def run(ctx) -> None:
                 "random histories; a case is distinct by (tracer, step list); oracle evaluations = (prefix, outcome) pairs of the "
                 "observed raw traces judged by the independent reader")
     ctx.trusted_base += [
+        "translator/gen_durable.py (ast walk of write_file / DataFileWriter.open+close -> call sequence; golden order of the commit steps)",
         "power-loss model of coq/Model/Durable.v: fsync(file) persists that inode's content, fsync(dir) persists that directory's "
         "entries, anything else may or may not persist (POSIX-strict; real file systems are at least this strong)",
         "harness/lib/ostrace.py tracers + canonicaliser (projection rules in canonicalise.__doc__), harness/lib/powerloss.py, "
@@ -578,6 +583,14 @@ def run(ctx) -> None:
             if not v:
                 ctx.proof_problems.append(f"oracle self-test: mutation {mu} ({mode}) was NOT detected by the power-loss oracle")
     ctx.stats["oracle_sensitivity"] = sens
+    # fault variant (DESIGN.md C16 "Not in the model"): the data directory's fsync raises OSError, which
+    # DataFileWriter.close swallows by design.  Informational only: never a violation, never a proof problem.
+    fc = make_case(ctx, BASE_SCENARIOS[0], "inproc", "dir_fsync_eio")
+    fv, fe = powerloss.sweep(fc.raw, fc.root, fc.reader, outcomes=["drop_all"])
+    ctx.stats["fault_variant_dir_fsync_oserror_swallowed"] = {
+        "note": "with the data directory's fsync failing (EIO, swallowed by DataFileWriter.close) the library still acknowledges the commit; outside the main theorems",
+        "steps_ok": [r.get("ok") for r in fc.results], "drop_all_violating_prefixes": len(fv), "prefixes": fe,
+        "first": (fv[0]["prefix"], fv[0]["problems"][0].get("file"), fv[0]["problems"][0].get("problem")) if fv else None}
     ctx.stats["selftest_s"] = round(time.time() - t0, 1)
 
     # ---- correspondence with the model
